@@ -575,6 +575,7 @@ func firstMatchRules(c *core.Ctx) {
 			// match condition on this path
 			match := 0
 			sawStr, sawAssign, sawIdent, sawFalse := false, false, false, false
+			badTypeSource := false
 			for _, s := range p.Events(ir.KBranch) {
 				at := s.Atom
 				switch name {
@@ -599,6 +600,22 @@ func firstMatchRules(c *core.Ctx) {
 				case "ForType":
 					// identity, or String()==String() && AssignableTo in either order: the conjunction of what the path
 					// has tested
+					// what is compared with the witness type is the entry's declared type (StructField.Type), not the
+					// pointer-stripped PureType or anything else: an embedded *B is not a field of type B
+					declared := func(t *ir.Term) bool {
+						ok := true
+						t.Walk(func(x *ir.Term) {
+							if (x.Op == "field" || x.Op == "faddr") && x.Aux != "Type" && x.Aux != "StructField" && mentionsOnly(x, elem) {
+								ok = false
+							}
+						})
+						return ok
+					}
+					if !declared(at) && !badTypeSource {
+						badTypeSource = true
+						ok = false
+						c.Fail("first-match", cname, s.Pos(), "the witness type is compared with %s, which is not the entry's declared type (StructField.Type): an entry of another type (an embedded *B for B) would be taken for it", short(at))
+					}
 					if at.Op == "bin" && at.Aux == "==" && len(at.Args) == 2 {
 						a, b := at.Args[0], at.Args[1]
 						isStr := func(t *ir.Term) bool { return t.Op == "pure" && strings.HasSuffix(t.Aux, ".String") }
